@@ -39,29 +39,32 @@
 #include <stdlib.h>
 
 #ifndef LHT_K
-#    define LHT_K 6 /* materialised entries of the pre-state window */
+#    define LHT_K 6 /* slots of the pre-state window */
 #endif
-#define LHT_S (LHT_K + 1) /* + the entry a put may add */
-#define LHT_NK (LHT_K + 2)
+#define LHT_S (LHT_K + 1) /* + slot LHT_K: the entry a put adds / an entry moved to the back */
+#define LHT_NEW LHT_K
 #define LHT_NV (LHT_K + 2)
 #define LHT_NONE SIZE_MAX
 
-/* ------------------------------------------------------------------ keys and values */
+/* ------------------------------------------------------------------ keys and values
+ * Identities are canonical (only equality matters): the entry in slot i has identity i, a key that is not in the table
+ * has identity LHT_K.  Every identity has two records (equal by comparison, distinct as pointers).  NULL is a key of its
+ * own (equal only to NULL).  Canonical identities let symbolic execution resolve the hash view's lookups; which of the
+ * two records (or NULL) is stored / passed stays arbitrary. */
 struct lht_key {
     uint64_t id;
 };
-struct lht_key g_kp[LHT_NK]; /* ids are arbitrary (DFCC leaves statics nondeterministic) */
+struct lht_key g_kp[2 * (LHT_K + 1)];
 char g_vp[LHT_NV];
 
 static bool lht_keq(const void *a, const void *b) {
-    if (a == b) return true;
-    if (a == NULL || b == NULL) return false;
+    if (a == NULL) return b == NULL;
+    if (b == NULL) return false;
     return ((const struct lht_key *)a)->id == ((const struct lht_key *)b)->id;
 }
-static const void *lht_any_key(void) {
-    size_t i = nondet_size_t();
-    __CPROVER_assume(i <= LHT_NK);
-    return i == LHT_NK ? NULL : (const void *)&g_kp[i];
+/* one of the two records of identity `id` */
+static const void *lht_key_of(size_t id) {
+    return nondet_bool() ? (const void *)&g_kp[2 * id] : (const void *)&g_kp[2 * id + 1];
 }
 static void *lht_any_value(void) {
     size_t i = nondet_size_t();
@@ -69,17 +72,17 @@ static void *lht_any_value(void) {
     return i == LHT_NV ? NULL : (void *)&g_vp[i];
 }
 
-/* ------------------------------------------------------------------ reference ordered map (window form) */
+/* ------------------------------------------------------------------ reference ordered map (window form)
+ * Entries in iteration order = slot order; slot i may be absent.  gap[i]: hidden entries follow the (present) entry of
+ * slot i, before the next present slot.  Slot LHT_NEW is empty before a call. */
 struct lht_abs {
-    size_t n;                                        /* materialised entries, in iteration order               */
-    struct aws_linked_hash_table_node *node[LHT_S];  /* the heap node that carries entry i                     */
-    const void *key[LHT_S];                          /* stored key pointer of entry i                          */
-    void *val[LHT_S];                                /* stored value of entry i                                */
-    size_t slot[LHT_S];                              /* cell of the hash view that holds entry i               */
-    bool gap[LHT_S];                                 /* hidden entries between entry i and entry i+1           */
-    struct aws_linked_list_node *hl[LHT_S];          /* gap[i]: node[i]->next   (first hidden entry)           */
-    struct aws_linked_list_node *hr[LHT_S];          /* gap[i]: node[i+1]->prev (last hidden entry)            */
-    size_t hidden;                                   /* number of hidden entries (>= number of gaps)           */
+    bool present[LHT_S];
+    struct aws_linked_hash_table_node *node[LHT_S]; /* the heap node that carries the entry      */
+    const void *key[LHT_S];                         /* stored key pointer                        */
+    void *val[LHT_S];                               /* stored value                              */
+    size_t cell[LHT_S];                             /* cell of the hash view that holds the entry */
+    bool gap[LHT_S];
+    size_t hidden; /* number of hidden entries (>= number of gaps; 0 without gaps) */
 };
 struct lht_abs g_a; /* reference state before the call */
 struct lht_abs g_e; /* expected reference state after the call */
@@ -90,7 +93,8 @@ struct lht_model {
     struct aws_hash_element el[LHT_S];
     bool live[LHT_S];
     size_t count;
-    size_t cells; /* cells in use by the model (constant per unit) */
+    size_t cells;        /* clear visits cells 0..cells-1 (constant per unit) ...   */
+    size_t order[LHT_S]; /* ... in this order (arbitrary permutation)               */
     /* what aws_hash_table_init was told */
     bool ht_inited;
     aws_hash_callback_destroy_fn *ht_dk;
@@ -111,7 +115,7 @@ struct lht_model g_m;
 
 struct aws_linked_hash_table *g_T; /* the table under proof (for the caches: &cache->table) */
 struct aws_allocator g_lht_allocator;
-struct aws_linked_list_node g_hid[2 * LHT_S]; /* stand-ins for the hidden neighbours at gaps: never written (not in any assigns clause) */
+struct aws_linked_list_node g_hid[2 * LHT_S]; /* stand-ins for the hidden neighbours at gaps: g_hid[2i] follows slot i, g_hid[2i+1] precedes the next present slot; never written (in no assigns clause) */
 struct aws_linked_hash_table_node *g_M;       /* the node of the entry matching the operation key (NULL: none) */
 struct aws_linked_hash_table_node *g_X;       /* a second node an operation may unlink (cache eviction); NULL: none */
 
@@ -157,8 +161,6 @@ static void s_element_destroy(void *value); /* linked_hash_table.c: the value de
 
 /* the callbacks the table was initialised with, dispatched by name (keeps function-pointer removal from offering every
  * void(void*) function, including s_element_destroy itself, as a candidate) */
-static void lht_user_dv(void *v);
-static void lht_user_dk(void *k);
 static void lht_call_dk(void *k) {
     if (g_m.ht_dk == lht_user_dk) lht_user_dk(k);
     else __CPROVER_assert(g_m.ht_dk == NULL, "model: the registered key destructor is the user's or none");
@@ -174,9 +176,10 @@ static size_t lht_hash_lookup(const void *key) {
         if (g_m.live[s] && lht_keq(g_m.el[s].key, key)) return s;
     return LHT_NONE;
 }
+/* the cell a create will use: the highest free one (cell LHT_NEW is free before every call) */
 static size_t lht_hash_free_cell(void) {
-    for (size_t s = 0; s < LHT_S; s++)
-        if (!g_m.live[s]) return s;
+    for (size_t s = LHT_S; s > 0; s--)
+        if (!g_m.live[s - 1]) return s - 1;
     return LHT_NONE;
 }
 
@@ -221,7 +224,7 @@ int aws_hash_table_create(struct aws_hash_table *map, const void *key, struct aw
     }
     if (g_m.create_fails) return AWS_OP_ERR; /* nothing changed */
     s = lht_hash_free_cell();
-    __CPROVER_assert(s != LHT_NONE, "model: a free cell exists (window holds at most LHT_K entries before the call)");
+    __CPROVER_assert(s != LHT_NONE, "model: a free cell exists (the window holds at most LHT_K entries before the call)");
     g_m.live[s] = true;
     g_m.el[s].key = key;
     g_m.el[s].value = NULL;
@@ -248,16 +251,35 @@ int aws_hash_table_remove(const struct aws_hash_table *map_c, const void *key, s
     return AWS_OP_SUCCESS;
 }
 
-/* clear visits the cells in cell order, which is unrelated to the list order (lht_build permutes the cells) */
+/* clear visits cells 0..cells-1 in the order g_m.order[], which is unrelated to the list order.  The nest enumerates
+ * the permutations so that every visit is of a concrete cell (cells <= 4). */
+static void lht_hash_visit(size_t s) {
+    if (g_m.live[s]) {
+        struct aws_hash_element old = g_m.el[s];
+        g_m.live[s] = false;
+        lht_call_dk((void *)old.key);
+        lht_call_dv(old.value);
+    }
+}
 void aws_hash_table_clear(struct aws_hash_table *map) {
     __CPROVER_assert(map == &g_T->table, "hash view: the table's own map is cleared");
-    __CPROVER_assert(g_m.count <= LHT_S, "model: clear is only modelled for a fully materialised table");
-    for (size_t s = 0; s < LHT_S; s++) {
-        if (s < g_m.cells && g_m.live[s]) {
-            struct aws_hash_element old = g_m.el[s];
-            g_m.live[s] = false;
-            lht_call_dk((void *)old.key);
-            lht_call_dv(old.value);
+    __CPROVER_assert(g_m.count <= g_m.cells && g_m.cells <= 4, "model: clear is only modelled for a fully materialised table of at most 4 entries");
+    size_t N = g_m.cells;
+    for (size_t a = 0; a < LHT_S; a++) {
+        if (a < N && g_m.order[0] == a) {
+            lht_hash_visit(a);
+            for (size_t b = 0; b < LHT_S; b++) {
+                if (b < N && b != a && g_m.order[1] == b) {
+                    lht_hash_visit(b);
+                    for (size_t c = 0; c < LHT_S; c++) {
+                        if (c < N && c != a && c != b && g_m.order[2] == c) {
+                            lht_hash_visit(c);
+                            for (size_t d = 0; d < LHT_S; d++)
+                                if (d < N && d != a && d != b && d != c && g_m.order[3] == d) lht_hash_visit(d);
+                        }
+                    }
+                }
+            }
         }
     }
     g_m.count = 0;
@@ -275,60 +297,82 @@ size_t aws_hash_table_get_entry_count(const struct aws_hash_table *map) {
 /* ------------------------------------------------------------------ reference operations */
 static size_t lht_abs_find(const struct lht_abs *a, const void *key) {
     for (size_t i = 0; i < LHT_S; i++)
-        if (i < a->n && lht_keq(a->key[i], key)) return i;
+        if (a->present[i] && lht_keq(a->key[i], key)) return i;
     return LHT_NONE;
 }
-/* both list neighbours of entry i are materialised (or are the sentinels) */
+static size_t lht_abs_pred(const struct lht_abs *a, size_t i) {
+    size_t p = LHT_NONE;
+    for (size_t j = 0; j < LHT_S; j++)
+        if (j < i && a->present[j]) p = j;
+    return p;
+}
+static size_t lht_abs_succ(const struct lht_abs *a, size_t i) {
+    size_t q = LHT_NONE;
+    for (size_t j = LHT_S; j > 0; j--)
+        if (j - 1 > i && a->present[j - 1]) q = j - 1;
+    return q;
+}
+static size_t lht_abs_first(const struct lht_abs *a) {
+    size_t q = LHT_NONE;
+    for (size_t j = LHT_S; j > 0; j--)
+        if (a->present[j - 1]) q = j - 1;
+    return q;
+}
+static size_t lht_abs_last(const struct lht_abs *a) {
+    return lht_abs_pred(a, LHT_S);
+}
+/* both list neighbours of the entry in slot i are materialised (or are the sentinels) */
 static bool lht_abs_visible(const struct lht_abs *a, size_t i) {
-    return i < a->n && (i == 0 || !a->gap[i - 1]) && (i + 1 == a->n || !a->gap[i]);
+    size_t p = lht_abs_pred(a, i);
+    return a->present[i] && !a->gap[i] && (p == LHT_NONE || !a->gap[p]);
 }
 static size_t lht_abs_size(const struct lht_abs *a) {
-    return a->n + a->hidden;
+    size_t n = 0;
+    for (size_t j = 0; j < LHT_S; j++)
+        if (a->present[j]) n++;
+    return n + a->hidden;
 }
+/* reference remove: the entry of slot i leaves the sequence (its neighbours are visible, so they become adjacent) */
 static void lht_abs_remove_at(struct lht_abs *e, size_t i) {
-    for (size_t j = 0; j + 1 < LHT_S; j++) {
-        if (j >= i) {
-            e->node[j] = e->node[j + 1];
-            e->key[j] = e->key[j + 1];
-            e->val[j] = e->val[j + 1];
-            e->slot[j] = e->slot[j + 1];
-            e->gap[j] = e->gap[j + 1];
-            e->hl[j] = e->hl[j + 1];
-            e->hr[j] = e->hr[j + 1];
-        }
-    }
-    e->n--;
-}
-static void lht_abs_append(struct lht_abs *e, struct aws_linked_hash_table_node *node, const void *key, void *val, size_t slot) {
-    size_t i = e->n;
-    if (i > 0) e->gap[i - 1] = false;
-    e->node[i] = node;
-    e->key[i] = key;
-    e->val[i] = val;
-    e->slot[i] = slot;
+    e->present[i] = false;
     e->gap[i] = false;
-    e->n = i + 1;
+}
+/* reference append: a new last entry (slot LHT_NEW, free before the call) */
+static void lht_abs_append(struct lht_abs *e, struct aws_linked_hash_table_node *node, const void *key, void *val, size_t cell) {
+    e->present[LHT_NEW] = true;
+    e->node[LHT_NEW] = node;
+    e->key[LHT_NEW] = key;
+    e->val[LHT_NEW] = val;
+    e->cell[LHT_NEW] = cell;
+    e->gap[LHT_NEW] = false;
+}
+/* reference move-to-back: same node, key, value and cell, now the last entry */
+static void lht_abs_move_to_back(struct lht_abs *e, size_t i) {
+    lht_abs_append(e, e->node[i], e->key[i], e->val[i], e->cell[i]);
+    lht_abs_remove_at(e, i);
 }
 
 /* ------------------------------------------------------------------ an arbitrary valid state */
-#define LHT_PERMUTE_CELLS 1
 static void lht_model_reset(void) {
     GHOST_RESET_COMMON();
     g_m.dv_calls = g_m.dv_hits = g_m.dk_calls = g_m.dk_hits = g_m.rel_calls = g_m.rel_hits = g_m.calloc_calls = 0;
     g_m.dv_last = g_m.dk_last = g_m.rel_last = g_m.calloc_last = NULL;
     g_m.dv_watch = g_m.dk_watch = g_m.rel_watch = &g_m; /* never a key, value or node: nothing watched */
     g_m.ht_cleaned = false;
-    g_m.cells = LHT_S;
+    g_m.cells = 0;
     g_m.create_fails = nondet_bool();
     g_m.init_fails = nondet_bool();
+    for (size_t i = 0; i < 2 * (LHT_K + 1); i++) g_kp[i].id = i / 2;
     g_M = NULL;
     g_X = NULL;
 }
 
 /* Fills *T, g_a and the hash view with an arbitrary state that satisfies the coupling.
- *   flags & LHT_PERMUTE_CELLS : the hash cells are assigned to the entries in an arbitrary order (units that clear)
- *   max_n                     : at most max_n materialised entries */
-static void lht_build(struct aws_linked_hash_table *T, size_t max_n, int flags) {
+ *   must : bit i set -> slot i holds an entry          may : bit i set -> slot i holds an entry or not (arbitrary)
+ *   null_slot : the slot whose stored key is NULL (LHT_NONE: no stored NULL key)
+ * Choosing which slots MUST be present is a choice of window, not of state: e.g. "slot 2 holds the entry that matches
+ * the operation key, slots 0,1 / 3,4.. whatever precedes / follows it" describes every list in which the key is present. */
+static void lht_build(struct aws_linked_hash_table *T, unsigned must, unsigned may, size_t null_slot) {
     lht_model_reset();
     g_T = T;
     T->allocator = &g_lht_allocator;
@@ -341,91 +385,89 @@ static void lht_build(struct aws_linked_hash_table *T, size_t max_n, int flags) 
     g_m.ht_hash = lht_user_hash;
     g_m.ht_eq = lht_user_eq;
 
-    size_t n = nondet_size_t();
-    __CPROVER_assume(n <= max_n && n <= LHT_K);
-    g_a.n = n;
-    size_t gaps = 0;
     for (size_t i = 0; i < LHT_S; i++) {
+        bool pr = i < LHT_K && (((must >> i) & 1u) ? true : (((may >> i) & 1u) ? nondet_bool() : false));
         struct aws_linked_hash_table_node *nd = NULL;
-        if (i < LHT_K) {
+        if (i < LHT_K && (((must | may) >> i) & 1u)) {
             nd = malloc(sizeof(*nd));
             __CPROVER_assume(nd != NULL);
         }
+        g_a.present[i] = pr;
         g_a.node[i] = nd;
-        g_a.key[i] = lht_any_key();
+        g_a.key[i] = (i == null_slot) ? NULL : lht_key_of(i);
         g_a.val[i] = lht_any_value();
-        g_a.gap[i] = (i + 1 < n) ? nondet_bool() : false;
-        if (g_a.gap[i]) gaps++;
-        g_a.hl[i] = &g_hid[2 * i];
-        g_a.hr[i] = &g_hid[2 * i + 1];
-        g_a.slot[i] = i;
+        g_a.cell[i] = i;
+        g_a.gap[i] = false;
     }
-    /* stored keys are pairwise unequal (the hash table holds one entry per key) */
-    for (size_t i = 0; i < LHT_K; i++)
-        for (size_t j = i + 1; j < LHT_K; j++)
-            __CPROVER_assume(!(j < n) || !lht_keq(g_a.key[i], g_a.key[j]));
-    if (flags & LHT_PERMUTE_CELLS) { /* the first max_n cells, among the first max_n entries */
-        for (size_t i = 0; i < LHT_S; i++) {
-            if (i < max_n) {
-                size_t s = nondet_size_t();
-                __CPROVER_assume(s < max_n);
-                g_a.slot[i] = s;
-            }
+    size_t gaps = 0;
+    for (size_t i = 0; i < LHT_K; i++) {
+        if (g_a.present[i] && lht_abs_succ(&g_a, i) != LHT_NONE && nondet_bool()) {
+            g_a.gap[i] = true;
+            gaps++;
         }
-        for (size_t i = 0; i < LHT_S; i++)
-            for (size_t j = i + 1; j < LHT_S; j++) __CPROVER_assume(!(j < max_n) || g_a.slot[i] != g_a.slot[j]);
     }
     g_a.hidden = nondet_size_t();
     __CPROVER_assume(g_a.hidden >= gaps && (gaps > 0 || g_a.hidden == 0) && g_a.hidden <= SIZE_MAX - 4 * LHT_S);
 
     /* concrete list */
+    size_t first = lht_abs_first(&g_a), last = lht_abs_last(&g_a);
     T->list.head.prev = NULL;
     T->list.tail.next = NULL;
-    T->list.head.next = n > 0 ? &g_a.node[0]->node : &T->list.tail;
-    T->list.tail.prev = n > 0 ? &g_a.node[n - 1]->node : &T->list.head;
+    T->list.head.next = first != LHT_NONE ? &g_a.node[first]->node : &T->list.tail;
+    T->list.tail.prev = last != LHT_NONE ? &g_a.node[last]->node : &T->list.head;
     for (size_t i = 0; i < LHT_K; i++) {
-        if (i < n) {
+        if (g_a.present[i]) {
             struct aws_linked_hash_table_node *nd = g_a.node[i];
+            size_t p = lht_abs_pred(&g_a, i), q = lht_abs_succ(&g_a, i);
             nd->table = T;
             nd->key = g_a.key[i];
             nd->value = g_a.val[i];
-            nd->node.prev = i == 0 ? &T->list.head : (g_a.gap[i - 1] ? g_a.hr[i - 1] : &g_a.node[i - 1]->node);
-            nd->node.next = i + 1 == n ? &T->list.tail : (g_a.gap[i] ? g_a.hl[i] : &g_a.node[i + 1]->node);
+            nd->node.prev = p == LHT_NONE ? &T->list.head : (g_a.gap[p] ? &g_hid[2 * p + 1] : &g_a.node[p]->node);
+            nd->node.next = q == LHT_NONE ? &T->list.tail : (g_a.gap[i] ? &g_hid[2 * i] : &g_a.node[q]->node);
         }
     }
     /* hash view */
-    for (size_t s = 0; s < LHT_S; s++) g_m.live[s] = false;
-    for (size_t i = 0; i < LHT_K; i++) {
-        if (i < n && i < max_n) {
-            g_m.live[g_a.slot[i]] = true;
-            g_m.el[g_a.slot[i]].key = g_a.key[i];
-            g_m.el[g_a.slot[i]].value = g_a.node[i];
-        }
+    for (size_t s = 0; s < LHT_S; s++) {
+        g_m.live[s] = g_a.present[s];
+        g_m.el[s].key = g_a.key[s];
+        g_m.el[s].value = g_a.node[s];
     }
+    size_t n = 0;
+    for (size_t j = 0; j < LHT_S; j++)
+        if (g_a.present[j]) n++;
     g_m.count = n + g_a.hidden;
-    g_m.cells = (flags & LHT_PERMUTE_CELLS) ? max_n : LHT_S;
     g_e = g_a;
+}
+/* units that clear: the whole table is the slots 0..cells-1 (no hidden entries), destroyed in an arbitrary order */
+static void lht_clear_order(size_t cells) {
+    g_m.cells = cells;
+    for (size_t i = 0; i < LHT_S; i++) {
+        g_m.order[i] = nondet_size_t();
+        __CPROVER_assume(g_m.order[i] < LHT_S);
+    }
+    for (size_t i = 0; i < LHT_S; i++)
+        for (size_t j = i + 1; j < LHT_S; j++) __CPROVER_assume(g_m.order[i] != g_m.order[j]);
+    for (size_t i = 0; i < LHT_S; i++) __CPROVER_assume(!(i < cells) || g_m.order[i] < cells);
 }
 
 /* ------------------------------------------------------------------ coupling: concrete state == reference state */
 /* list part: the links from head to tail run through exactly the entries of *e in order (gaps: hidden neighbours as before) */
 static void lht_check_list(const struct lht_abs *e) {
     const struct aws_linked_hash_table *T = g_T;
+    size_t first = lht_abs_first(e), last = lht_abs_last(e);
     bool links = T->list.head.prev == NULL && T->list.tail.next == NULL;
     bool fields = true;
-    if (e->n == 0) {
-        links = links && T->list.head.next == &T->list.tail && T->list.tail.prev == &T->list.head;
-    } else {
-        links = links && T->list.head.next == &e->node[0]->node && T->list.tail.prev == &e->node[e->n - 1]->node;
-    }
+    links = links && T->list.head.next == (first != LHT_NONE ? &e->node[first]->node : (struct aws_linked_list_node *)&T->list.tail);
+    links = links && T->list.tail.prev == (last != LHT_NONE ? &e->node[last]->node : (struct aws_linked_list_node *)&T->list.head);
     for (size_t i = 0; i < LHT_S; i++) {
-        if (i < e->n) {
+        if (e->present[i]) {
             const struct aws_linked_hash_table_node *nd = e->node[i];
-            const struct aws_linked_list_node *p =
-                i == 0 ? &T->list.head : (e->gap[i - 1] ? e->hr[i - 1] : &e->node[i - 1]->node);
-            const struct aws_linked_list_node *x =
-                i + 1 == e->n ? &T->list.tail : (e->gap[i] ? e->hl[i] : &e->node[i + 1]->node);
-            links = links && nd->node.prev == p && nd->node.next == x;
+            size_t p = lht_abs_pred(e, i), q = lht_abs_succ(e, i);
+            const struct aws_linked_list_node *xp =
+                p == LHT_NONE ? &T->list.head : (e->gap[p] ? &g_hid[2 * p + 1] : &e->node[p]->node);
+            const struct aws_linked_list_node *xn =
+                q == LHT_NONE ? &T->list.tail : (e->gap[i] ? &g_hid[2 * i] : &e->node[q]->node);
+            links = links && nd->node.prev == xp && nd->node.next == xn;
             fields = fields && nd->table == T && nd->key == e->key[i] && nd->value == e->val[i];
         }
     }
@@ -435,18 +477,19 @@ static void lht_check_list(const struct lht_abs *e) {
 /* hash part: every reference entry is found under its key and leads to its node; nothing else is stored; count */
 static void lht_check_hash(const struct lht_abs *e) {
     bool maps = true;
-    size_t live = 0;
+    size_t live = 0, n = 0;
     for (size_t s = 0; s < LHT_S; s++)
         if (g_m.live[s]) live++;
     for (size_t i = 0; i < LHT_S; i++) {
-        if (i < e->n) {
-            size_t s = e->slot[i];
+        if (e->present[i]) {
+            size_t s = e->cell[i];
+            n++;
             maps = maps && s < LHT_S && g_m.live[s] && g_m.el[s].key == e->key[i] && g_m.el[s].value == (void *)e->node[i];
         }
     }
     __CPROVER_assert(maps, "lookup: every reference key maps to its own node, stored under the reference key pointer");
-    __CPROVER_assert(live == e->n, "lookup: the hash view holds no entry besides the reference entries");
-    __CPROVER_assert(g_m.count == e->n + e->hidden, "count: entry count equals the size of the reference map");
+    __CPROVER_assert(live == n, "lookup: the hash view holds no entry besides the reference entries");
+    __CPROVER_assert(g_m.count == n + e->hidden, "count: entry count equals the size of the reference map");
 }
 static void lht_check(const struct lht_abs *e) {
     lht_check_list(e);
@@ -524,7 +567,7 @@ __CPROVER_ensures(__CPROVER_return_value == AWS_OP_SUCCESS)
 size_t aws_linked_hash_table_get_element_count(const struct aws_linked_hash_table *table)
 __CPROVER_requires(table == g_T)
 __CPROVER_assigns()
-__CPROVER_ensures(__CPROVER_return_value == g_a.n + g_a.hidden)
+__CPROVER_ensures(__CPROVER_return_value == g_m.count)
 ;
 
 const struct aws_linked_list *aws_linked_hash_table_get_iteration_list(const struct aws_linked_hash_table *table)
@@ -553,7 +596,7 @@ __CPROVER_ensures(__CPROVER_return_value == AWS_OP_SUCCESS ==>
 
 /* clear / clean_up: BOUNDED units (the whole list is materialised: no gaps, at most LHT_K entries).  Every node is
  * unlinked and released; clean_up zeroes the table. */
-#define LHT_NODE_FRAME(i) __CPROVER_assigns(g_a.n > (i) : __CPROVER_object_whole(g_a.node[i])) __CPROVER_frees(g_a.n > (i) : g_a.node[i])
+#define LHT_NODE_FRAME(i) __CPROVER_assigns(g_a.present[i] : __CPROVER_object_whole(g_a.node[i])) __CPROVER_frees(g_a.present[i] : g_a.node[i])
 #if LHT_K == 6
 #    define LHT_ALL_NODES_FRAME LHT_NODE_FRAME(0) LHT_NODE_FRAME(1) LHT_NODE_FRAME(2) LHT_NODE_FRAME(3) LHT_NODE_FRAME(4) LHT_NODE_FRAME(5)
 #elif LHT_K == 5
